@@ -14,7 +14,7 @@ Theorem C40_never_deadlocks_refuted : ~ C40_never_deadlocks_full.
 Proof. exact never_deadlocks_refuted. Qed.
 Print Assumptions C40_never_deadlocks_refuted.
 
-(* ... with these four witnesses (each replayed on the implementation: corpus/C40, known findings) *)
+(* ... with these three witnesses (each replayed on the implementation: corpus/C40, known findings) *)
 Theorem C40_deadlock_after_disconnect :
   monitor (run cfgA (init cfgA) [Cccd 2; Write [4]; Disc; Cccd 2; Write [4]]) = Some (4%nat, t_busy_idle).
 Proof. exact deadlock_after_disconnect. Qed.
@@ -24,9 +24,11 @@ Proof. exact deadlock_after_unsubscribe. Qed.
 Theorem C40_read_resets_procedure :
   monitor (run cfgA (init cfgA) [Cccd 2; Write [4]; Read; Write [4]]) = Some (3%nat, t_accepted_busy).
 Proof. exact read_resets_procedure. Qed.
-Theorem C40_unsent_indication_blocks_response :
-  monitor (run cfgA (init cfgA) [Confirm; Out 23; Cccd 2; Write [4]; Out 23]) = Some (4%nat, t_response_missing).
-Proof. exact unsent_indication_blocks. Qed.
+(* fixed with C11's defect (/repo f69efba): an indication dequeued while the client is not
+   subscribed no longer stays outstanding, so it does not block the response of a later procedure *)
+Theorem C40_unsent_indication_no_longer_blocks_response :
+  monitor (run cfgA (init cfgA) [Confirm; Out 23; Cccd 2; Write [4]; Out 23]) = None.
+Proof. exact unsent_indication_no_longer_blocks. Qed.
 
 (* What does hold, for every configuration and every operation sequence of any length: inside the
    environment env_run (l2cap_output gets >= 6 bytes; no disconnect, unsubscribe or Read Request
